@@ -77,11 +77,11 @@ def plans(prop, tier):
              prof(45, nops=n, pool=90, maxlen=3, alpha=3, pput=40, prem=12, pget=0, pscan=0, piscan=48, pmem=0, pprobe=0, dumpevery=0, pmod=60),
              prof(46, nops=n + 200, pool=200, maxlen=2, alpha=8, mode="mix", pput=55, prem=10, pget=0, pscan=0, piscan=35, pmem=0, pprobe=0, dumpevery=0, pmod=60),
              # scripted: paused cursors over the collapse of a next layer's interior root (F18), over two emptied neighbouring borders with early_abort (F19),
-             # over a split of the layer's root border together with a split of the border that holds its link (F20)
+             # over a split of the layer's root border together with a split of the border that holds its link (F20), over a split root border that is emptied (F21)
              prof(48, nops=30, pool=20, maxlen=2, alpha=3, pput=40, prem=20, pget=0, pscan=0, piscan=40, pmem=0, pprobe=0, dumpevery=0, cursorsweep=1)]
         # the sequential cursor (YkIscan: findfirst / findnext transliterated) in every reachable state of the small tree model
         # + the paused cursor with its re-validation / retry paths (YkIscanR) over every placement of 1-2 writes between its calls (MC_IscanW)
-        M = ["MC_Iscan_5ok.cfg", "MC_IscanW_5.cfg", "MC_IscanW_L.cfg"] if q else ["MC_Iscan_5ok.cfg", "MC_Iscan_5b.cfg", "MC_Iscan_5F.cfg", "MC_Iscan_5G.cfg", "MC_IscanW_5w2.cfg", "MC_IscanW_L.cfg", "MC_IscanW_X.cfg", "MC_IscanW_S.cfg"]
+        M = ["MC_Iscan_5ok.cfg", "MC_IscanW_5.cfg", "MC_IscanW_L.cfg"] if q else ["MC_Iscan_5ok.cfg", "MC_Iscan_5b.cfg", "MC_Iscan_5F.cfg", "MC_Iscan_5G.cfg", "MC_IscanW_5w2.cfg", "MC_IscanW_L.cfg", "MC_IscanW_X.cfg", "MC_IscanW_Y.cfg", "MC_IscanW_S.cfg"]
     elif prop == "C12":
         on = ["C12"]
         m = 250 if q else 700
